@@ -49,7 +49,7 @@ META = {
                   'runs (exit code, processed set, start order).',
     'level_note': 'filter_spec carries the decidable hypothesis NoReinit; without it the statement is false of the '
                   'current code (open finding repeated-name-truncates, counterexample theorem '
-                  'reinit_counterexample). The order clause is monitored, not proved (def order_full). Closure '
+                  'reinit_counterexample). The order clause is proved for every start order satisfying the chunk abstraction of the serial dispatcher (chunkedB, validated on every observed run), not for the dispatcher itself (def order_full needs M1). Closure '
                   'completeness is proved relative to the decidable certificate closedB, which the driver evaluates '
                   'on every case. fnmatch is modelled for `*`, `?` and literals only; getopt for short clusters and '
                   'exact long names; delayed tasks only at the TaskControl tier; regex targets not modelled.',
@@ -164,6 +164,9 @@ def evaluate(cases, workdir, want_cli=True):
                 for name, vals in m['pos']:
                     if name in cli['kwargs'] and list(cli['kwargs'][name].get('pos') or []) != vals:
                         r['div'].append('cli: %s received pos=%s, model %s' % (name, cli['kwargs'][name].get('pos'), vals))
+            if cli_ok and exp_exit == 0 and m.get('chunked') is False:
+                r['div'].append('cli: the serial start order %s does not work the selection %s off one task after the '
+                                'other (abstraction chunkedB of the dispatcher)' % (cli['started'], head['sel'][1]))
             mon = m.get('monitor', [])
             if mon:
                 r['viol'].append({'tier': 'cli', 'failed': mon, 'impl': {k: cli[k] for k in ('exit', 'error', 'processed', 'started', 'ran')},
@@ -403,7 +406,7 @@ def run(ctx):
     for name, c in common.load_corpus('C12'):
         cases.append(c['case'] if 'case' in c else c)
         ctx.count('corpus')
-    n_random = (700 if ctx.tier == 'quick' else 24000) * ctx.boost
+    n_random = (600 if ctx.tier == 'quick' else 24000) * ctx.boost
     for i in range(n_random):
         cases.append(sellib.gen_case(random.Random(rng.getrandbits(64))))
     if ctx.tier == 'thorough':
@@ -411,7 +414,7 @@ def run(ctx):
         ctx.extra['exhaustive_small_scope'] = {'task_sets': len(SMALL_SETS), 'alphabet': 9, 'max_argv_len': 3,
                                                'cases': len(ex)}
     else:
-        ex = exhaustive_cases(2, rng) + exhaustive_cases(3, rng, sample=600 * ctx.boost)
+        ex = exhaustive_cases(2, rng) + exhaustive_cases(3, rng, sample=500 * ctx.boost)
         ctx.extra['exhaustive_small_scope'] = {'task_sets': len(SMALL_SETS), 'alphabet': 9, 'max_argv_len': 2,
                                                'cases': len(ex), 'note': 'length 3 sampled in the quick tier'}
     cases += ex
